@@ -4,6 +4,7 @@ import (
 	"fmt"
 	"go/token"
 	"go/types"
+	"sort"
 	"strings"
 
 	"golang.org/x/tools/go/ssa"
@@ -152,6 +153,7 @@ func (fc *FuncCtx) call(fr *Frame, st *State, res ssa.Value, call *ssa.CallCommo
 			if c, ok := fc.p.ifaceContracts[pk+"::"+key]; ok {
 				sig := call.Method.Type().(*types.Signature)
 				setRes(fc.callByContract(fr, st, nil, c, sig, args, pos, key, true))
+				fc.havocClosureArgs(fr, st, call)
 				return
 			}
 			unsupp("dynamic call %s.%s at %s (no interface contract %s)", call.Value.Type(), call.Method.Name(), fc.p.pos(pos), key)
@@ -187,6 +189,7 @@ func (fc *FuncCtx) call(fr *Frame, st *State, res ssa.Value, call *ssa.CallCommo
 				panic(elabErr{fmt.Sprintf("%s:%d: assert_at %s: %v", fc.contract.File, as.Line, key, err)})
 			}
 			fc.addSplit(fr, st, "assert_at", key+":"+as.Text, t, pos, "assertion at the call of "+cn)
+			st.assume(t) // proved above: later assertions at the same call and the code after it may use it
 			fc.assertSeen[key] = true
 		}
 	}
@@ -194,6 +197,7 @@ func (fc *FuncCtx) call(fr *Frame, st *State, res ssa.Value, call *ssa.CallCommo
 	if ext := fc.p.externFor(callee); ext != nil {
 		fc.note("assumed contract for " + fullName(callee))
 		setRes(fc.callByContract(fr, st, callee, ext, callee.Signature, args, pos, fullName(callee), true))
+		fc.havocClosureArgs(fr, st, call)
 		return
 	}
 	if special, ok := fc.specialExtern(fr, st, callee, args, pos); ok {
@@ -206,6 +210,7 @@ func (fc *FuncCtx) call(fr *Frame, st *State, res ssa.Value, call *ssa.CallCommo
 			fc.note("trusted contract for " + fullName(callee) + ": " + c.TrustWhy)
 		}
 		setRes(fc.callByContract(fr, st, callee, c, callee.Signature, args, pos, funcKey(callee), false))
+		fc.havocClosureArgs(fr, st, call)
 		return
 	}
 	// 3. inline
@@ -251,6 +256,79 @@ func (fc *FuncCtx) call(fr *Frame, st *State, res ssa.Value, call *ssa.CallCommo
 		return
 	}
 	unsupp("call of %s at %s: no contract, no model, not inlinable", fullName(callee), fc.p.pos(pos))
+}
+
+// havocClosureArgs: a callee used through its contract may run the function literals it is given.
+// Their effects are not described by the callee's contract, so after the call every captured
+// variable of this frame that such a literal assigns, and every heap array it may write, is
+// given an arbitrary value (facts the callee's ensures stated about those heaps are dropped too).
+func (fc *FuncCtx) havocClosureArgs(fr *Frame, st *State, call *ssa.CallCommon) {
+	for _, a := range call.Args {
+		mc, ok := a.(*ssa.MakeClosure)
+		if !ok {
+			continue
+		}
+		cf := mc.Fn.(*ssa.Function)
+		cells := map[*ssa.Alloc]bool{}
+		mi := &modInfo{heaps: map[string]bool{}}
+		for _, b := range cf.Blocks {
+			for _, ins := range b.Instrs {
+				fc.modOfInstr(nil, ins, nil, mi, 1)
+				if sto, ok := ins.(*ssa.Store); ok {
+					if fv, ok := sto.Addr.(*ssa.FreeVar); ok {
+						for k, f := range cf.FreeVars {
+							if f == fv {
+								if al, ok := mc.Bindings[k].(*ssa.Alloc); ok {
+									cells[al] = true
+								} else {
+									unsupp("function literal passed to a contracted callee assigns a captured variable that is not a local of the caller")
+								}
+							}
+						}
+					}
+				}
+			}
+		}
+		fc.note("effects of the function literal passed to " + call.String() + " are havocked after the call")
+		if mi.allocs {
+			na := Fresh("alloc.clo", SInt)
+			st.assume(Le(st.alloc, na))
+			st.alloc = na
+		}
+		var cl []*ssa.Alloc
+		for c := range cells {
+			cl = append(cl, c)
+		}
+		sort.Slice(cl, func(i, j int) bool { return cl[i].Pos() < cl[j].Pos() })
+		for _, c := range cl {
+			if old, ok := st.cells[c]; ok {
+				et := c.Type().Underlying().(*types.Pointer).Elem()
+				if old.T != nil {
+					st.cells[c] = fc.freshVal("clo."+cellName(c), et, st)
+				} else {
+					unsupp("function literal passed to a contracted callee assigns pointer-valued local %s", cellName(c))
+				}
+			}
+		}
+		var hs []string
+		for k := range mi.heaps {
+			hs = append(hs, k)
+		}
+		sort.Strings(hs)
+		for _, k := range hs {
+			if strings.HasPrefix(k, "ghost:") || strings.HasPrefix(k, "FV:") {
+				continue // ghost counters: below; FV: the captured cells, handled above
+			}
+			nh := Fresh(heapVarName(k)+".clo", heapSort(k, fc.p))
+			fc.p.noteHeapVar(nh, k, st.alloc)
+			st.setH(k, nh)
+		}
+		for g := range st.ghost {
+			if mi.heaps["ghost:"+g] || mi.heaps["ghost:chan"] {
+				st.ghost[g] = Fresh("ghost."+g+".clo", SInt)
+			}
+		}
+	}
 }
 
 func typeKeyShort(t types.Type) string {
